@@ -487,7 +487,7 @@ func c18GenConnHistory(rng *rand.Rand, n int, style string) []string {
 				kind = "addrfail"
 			}
 			if style == "ban" && kind == "fail" && fails[a] >= 22 {
-				kind = "ok" // keep every address below maxFailedAttempts: the partial theorem's hypothesis
+				kind = "ok" // style "ban": BanAddress configured but never invoked
 			}
 			serial := liveSerial[k]
 			liveSerial = append(liveSerial[:k:k], liveSerial[k+1:]...)
@@ -505,10 +505,7 @@ func c18GenConnHistory(rng *rand.Rand, n int, style string) []string {
 			case "fail":
 				ops = append(ops, fmt.Sprintf("conn fail %d %d", k, a))
 				if !cancelled[serial] && ban == 1 {
-					fails[a]++
-					if fails[a] >= 25 {
-						respawn = false // the defect: nothing is scheduled after the ban
-					}
+					fails[a]++ // at 25 the address is banned; the request is replaced all the same
 				}
 			default:
 				ops = append(ops, fmt.Sprintf("conn addrfail %d", k))
@@ -531,18 +528,12 @@ func c18GenConnHistory(rng *rand.Rand, n int, style string) []string {
 			closed++
 			if retry == 1 {
 				// the reconnect counts as a failed attempt to the connection's address when BanAddress is set
-				respawn := true
 				if ban == 1 {
 					fails[a]++
-					if fails[a] >= 25 {
-						respawn = false
-					}
 				}
-				if respawn {
-					arrivals++
-					liveSerial = append(liveSerial, arrivals)
-					live++
-				}
+				arrivals++
+				liveSerial = append(liveSerial, arrivals)
+				live++
 			}
 		case x < 92 && closed > 0:
 			ops = append(ops, fmt.Sprintf("conn discold %d %d", rng.Intn(closed), rng.Intn(2)))
@@ -558,7 +549,7 @@ func c18GenConnHistory(rng *rand.Rand, n int, style string) []string {
 			ops = append(ops, "conn dump")
 		}
 		if live == 0 && conns == 0 {
-			break // dead (only reachable through the defect or cancels)
+			break // dead (only reachable through cancels / Remove)
 		}
 	}
 	return ops
